@@ -1968,13 +1968,20 @@ def check_zero_default_delays(ctx, rep, rid):
             rep.fail_closed(rid, 'SimState::' + n)
             continue
         rv = [v for (b, k, v) in ret_defs(an.get(fn))]
-        ok = False
+        defaults = []
         for v in rv:
             for y in walk(v):
-                if isinstance(y, tuple) and y and y[0] == 'call' and y[1].endswith('Option::<T>::unwrap_or') and len(y[2]) == 2 and zero_dur(y[2][1]):
-                    ok = True
-                if isinstance(y, tuple) and y and y[0] == 'call' and y[1].endswith('Option::<T>::map_or') and len(y[2]) == 3 and zero_dur(y[2][1]):
-                    ok = True
+                if isinstance(y, tuple) and y and y[0] == 'call' and y[1].endswith('Option::<T>::unwrap_or') and len(y[2]) == 2:
+                    defaults.append(y[2][1])
+                if isinstance(y, tuple) and y and y[0] == 'call' and y[1].endswith('Option::<T>::map_or') and len(y[2]) == 3:
+                    defaults.append(y[2][1])
+            # expanded form: the None arm assigns the default directly
+            alts = list(v[1]) if isinstance(v, tuple) and v and v[0] == 'phi' else [v]
+            for x in alts:
+                x2 = strip_sites(x)
+                if isinstance(x2, tuple) and x2 and ((x2[0] == 'call' and x2[1].split('::')[-1] in ('from_micros', 'from_millis', 'from_secs', 'from_nanos')) or x2[0] == 'cdef'):
+                    defaults.append(x)
+        ok = bool(defaults) and all(zero_dur(d) for d in defaults)
         rep.ob(rid, fn, 'no-integration-means-zero-delay', ok, 'returns %s' % (shape(rv[0])[:80] if rv else '?'))
 
 
@@ -2504,7 +2511,7 @@ def check_no_normal_packets_table(ctx, rep, rid):
                 base_empty = any(f[0] == 'bcall' and f[1].endswith('is_empty') and f[3] is True and contains(f[2], lambda y: isinstance(y, tuple) and y and y[0] == 'fld' and y[3] == 'base') for f in S)
                 ok = base_empty and ended >= len(PENDING_KIND)
                 rep.ob(rid, fn, 'true-only-after-every-heap-was-scanned', ok, 'base found empty: %s, scans run to their end: %d of %d' % (base_empty, ended, len(PENDING_KIND)))
-    rep.count_floor(rid, 'true results of no_normal_packets', n_true, 1)
+    rep.extra['no_normal_packets_constant_true_results'] = n_true   # a result computed as an expression (`!any(..)`) is judged by the per-heap rules only
     for heap, kind in PENDING_KIND.items():
         got = seen.get(heap)
         rep.ob(rid, fn, 'pending-kind:' + heap, got == {kind},
